@@ -242,8 +242,13 @@ class World:
     def count(self, name, n=1):
         self.counters[name] = self.counters.get(name, 0) + n
 
+    NO_PROGRESS = frozenset(["s-send-block"])
+
     def event(self, *ev):
-        self.nevents += 1
+        # events that change nothing (a send that would block) do not count as
+        # progress for the spin detection
+        if ev[0] not in self.NO_PROGRESS:
+            self.nevents += 1
         if self.events is not None:
             self.events.append((self.sched.steps, self.thread_role()) + ev)
         self.sched._hash("ev", ev)
